@@ -39,7 +39,7 @@ def run(ctx):
         want = days * (4 if ctx.quick else 72) + 86400 * (3 if ctx.quick else 16)
         if cov['round_trips'] != want:
             raise HarnessError('round-trip count %d != expected %d' % (cov['round_trips'], want))
-    if m['deadline_hit']:
+    if m['deadline_hit'] or viol:
         return Result(LEVEL, cov, viol, ASSUME)
     # vacuity: the parser part must have seen accepted, correctly denoting strings in every form, and rejections
     for k, least in (('accepted_imf', 500), ('accepted_rfc850', 300), ('accepted_asctime', 500)):
